@@ -23,6 +23,7 @@ uint64_t next(const char *type) {
 }
 }
 extern "C" {
+int verif_abort_expected = 0;   // CBMC-side flag (cxxrt.c); plain variable natively
 uint8_t nondet_u8() { return (uint8_t)next("u8"); }
 uint16_t nondet_u16() { return (uint16_t)next("u16"); }
 uint32_t nondet_u32() { return (uint32_t)next("u32"); }
